@@ -28,10 +28,23 @@ package parser
 //@   assigns self.errors
 
 // Assumed frames of helpers that are not verified here: they build strings from their arguments.
-//@ func parseStringLiteral
+// Assumed: the string builder and the UTF-16 helpers work on their own memory.
+//@ extern (*strings.Builder).Grow (*strings.Builder).WriteByte (*strings.Builder).Len (*strings.Builder).String
+//@ extern unicode/utf16.EncodeRune github.com/dop251/goja/unistring.FromUtf16 fmt.Errorf
+
+// Decoding the escapes of a literal never reads outside the text, whatever the text is.
+//@ func parseStringLiteral safe
 //@   props C01
-//@   trusted
+//@   requires length >= 0
 //@   assigns nothing
+//@   loop 1 vars str string, chars []uint16
+//@   loop 1 invariant cap(chars) == 0 || newarray(chars) [output-buffer-is-our-own]
+//@   loop 2 vars str string, size int, j int, chars []uint16
+//@   loop 2 invariant 0 <= j && size <= len(str) && (cap(chars) == 0 || newarray(chars)) [fixed-width-escape-inside-text]
+//@   loop 3 vars str string, size int, chars []uint16
+//@   loop 3 invariant 0 <= size && size <= len(str) && (cap(chars) == 0 || newarray(chars)) [braced-escape-inside-text]
+//@   loop 4 vars str string, j int, chars []uint16
+//@   loop 4 invariant 0 <= j && j <= len(str) && (cap(chars) == 0 || newarray(chars)) [octal-escape-inside-text]
 //@ func normaliseCRLF
 //@   props C01
 //@   trusted
@@ -99,12 +112,12 @@ package parser
 //@ func (*_parser).scanIdentifier safe
 //@   props C01
 //@   requires specLexWF(self)
-//@   loop 1 vars offset int
-//@   loop 1 invariant specLexWF(self) && 0 <= offset && offset <= self.chrOffset [cursor-wf]
-//@   loop 2 vars offset int
-//@   loop 2 invariant specLexWF(self) && 0 <= offset && offset <= self.chrOffset [cursor-wf]
-//@   loop 3 vars offset int, j int
-//@   loop 3 invariant specLexWF(self) && 0 <= offset && offset <= self.chrOffset && j >= 0 [cursor-wf]
+//@   loop 1 vars offset int, length int
+//@   loop 1 invariant specLexWF(self) && 0 <= offset && offset <= self.chrOffset && length >= 0 [cursor-wf]
+//@   loop 2 vars offset int, length int
+//@   loop 2 invariant specLexWF(self) && 0 <= offset && offset <= self.chrOffset && length >= 0 [cursor-wf]
+//@   loop 3 vars offset int, j int, length int
+//@   loop 3 invariant specLexWF(self) && 0 <= offset && offset <= self.chrOffset && j >= 0 && length >= 0 [cursor-wf]
 //@   ensures specLexWF(self) [cursor-wf]
 
 //@ func (*_parser).scanEscape safe
@@ -113,6 +126,7 @@ package parser
 //@   loop 1 invariant specLexWF(self) && self.str == old(self.str) && self.chrOffset >= old(self.chrOffset) [cursor-wf]
 //@   loop 2 invariant specLexWF(self) && self.str == old(self.str) && self.chrOffset >= old(self.chrOffset) [cursor-wf]
 //@   ensures specLexWF(self) && self.chrOffset >= old(self.chrOffset) && self.str == old(self.str) [cursor-wf-and-monotone]
+//@   ensures result0 >= 0 [counts-code-units]
 
 //@ func (*_parser).idxOf pure
 
@@ -120,8 +134,8 @@ package parser
 //@ func (*_parser).scanString safe
 //@   props C01
 //@   requires specLexWF(self) && 0 <= offset && offset < self.chrOffset
-//@   loop 1 vars offset int, quote rune
-//@   loop 1 invariant specLexWF(self) && 0 <= offset && offset < self.chrOffset && self.str == old(self.str) && quote >= -1 && (quote == -1 ==> self.chrOffset >= offset+2) [cursor-wf]
+//@   loop 1 vars offset int, quote rune, length int
+//@   loop 1 invariant specLexWF(self) && 0 <= offset && offset < self.chrOffset && self.str == old(self.str) && quote >= -1 && (quote == -1 ==> self.chrOffset >= offset+2) && length >= 0 [cursor-wf]
 //@   ensures specLexWF(self) [cursor-wf]
 
 //@ func isDecimalDigit pure
@@ -152,8 +166,8 @@ package parser
 //@ func (*_parser).parseTemplateCharacters safe
 //@   props C01
 //@   requires specLexWF(self)
-//@   loop 1 vars offset int
-//@   loop 1 invariant specLexWF(self) && 0 <= offset && offset <= self.chrOffset && self.str == old(self.str) [cursor-wf]
+//@   loop 1 vars offset int, length int
+//@   loop 1 invariant specLexWF(self) && 0 <= offset && offset <= self.chrOffset && self.str == old(self.str) && length >= 0 [cursor-wf]
 //@   ensures specLexWF(self) [cursor-wf]
 
 //@ func (*_parser).scan safe
